@@ -213,7 +213,8 @@ async def _caller(sim, cspec, cmds, rec):
                 else:
                     if cspec.get("raise_at") == i:
                         raise ScriptedError("scripted failure at step %d" % i)
-                    r = await d.send(cmds[i], in_transaction=True)
+                    kw = {"exceptions": cspec["exceptions"]} if "exceptions" in cspec else {}
+                    r = await d.send(cmds[i], in_transaction=True, **kw)
                     rec["results"].append(describe_response(r))
                     if cspec.get("vandal"):
                         vandalise_answer(r)
